@@ -842,6 +842,8 @@ def install_builtins(reg):
             return a[0]
         if a and isinstance(a[0], int) and not isinstance(a[0], bool):
             return str(a[0])
+        if a and isinstance(a[0], Opaque) and type(a[0]).__name__ == "PathObj" and isinstance(a[0].p, str):
+            return a[0].p
         return StrSym("str()")
 
     @bi("repr")
